@@ -67,7 +67,11 @@ class FakeCv2:
     def imdecode(self, buf, flag):
         if not FakeCv2.active:
             return cv2.imdecode(buf, flag)
-        return std_dec_array(buf, 1 if flag == 0 else 3)
+        # cv2.IMREAD_GRAYSCALE = 0 -> one channel, IMREAD_COLOR = 1 -> three; any other flag (IMREAD_ANYCOLOR, IMREAD_UNCHANGED, ...)
+        # leaves the number of channels as it was encoded
+        b = bytes(buf[:7]) if len(buf) >= 7 else b''
+        want = 1 if flag == 0 else 3 if flag == 1 else (b[6] if len(b) == 7 else 3)
+        return std_dec_array(buf, want)
 
 frame_mod.cv2 = FakeCv2()
 
